@@ -70,6 +70,7 @@ type Stats struct {
 	Sample      []string       `json:"-"`
 	SampleLong  []string       `json:"-"`
 	WallS       float64        `json:"wall_s"`
+	Note        string         `json:"note,omitempty"`
 	MaxDepth    int            `json:"max_choice_depth"`
 	fpSet       map[uint64]struct{}
 	shardStates int64
@@ -304,12 +305,14 @@ func WorkerLoop(reg map[string]*Scenario) {
 
 // expandMsg is the worker's answer to an "expand" task: the frontier after breadth-first expansion.
 type expandMsg struct {
-	Stats     *Stats   `json:"stats"`
-	Found     []Found  `json:"found"`
-	Outcomes  []uint64 `json:"outcomes"`
-	Frontier  [][]int  `json:"frontier"`
-	Nondet    bool     `json:"nondet"`
-	NondetLog []string `json:"nondet_log"`
+	Stats      *Stats   `json:"stats"`
+	Found      []Found  `json:"found"`
+	Outcomes   []uint64 `json:"outcomes"`
+	Frontier   [][]int  `json:"frontier"`
+	Sample     []string `json:"sample"`
+	SampleLong []string `json:"sample_long"`
+	Nondet     bool     `json:"nondet"`
+	NondetLog  []string `json:"nondet_log"`
 }
 
 // expandLocal runs the determinism guard and the breadth-first frontier expansion (in a worker).
@@ -336,6 +339,7 @@ func expandLocal(sc *Scenario, target int) *expandMsg {
 		}
 	}
 	m.Frontier = frontier
+	m.Sample, m.SampleLong = st.Sample, st.SampleLong
 	m.Found = st.Found
 	for k := range st.Outcomes {
 		if len(m.Outcomes) < 20000 {
@@ -457,6 +461,7 @@ func Explore(sc *Scenario, workers int, deadline time.Time, selfArgs []string) *
 		return st
 	}
 	merge(st, &resultMsg{Stats: ex.Stats, Found: ex.Found, Outcomes: ex.Outcomes})
+	st.Sample, st.SampleLong = ex.Sample, ex.SampleLong
 	frontier := ex.Frontier
 	if len(frontier) == 0 {
 		finish(st, t0)
